@@ -120,6 +120,34 @@ def variants(cls, base, schema, types, mins, rnd):
         n = copy.deepcopy(base)
         n[2].insert(i + 1, copy.deepcopy(k))
         out.append(("duplicate %s" % a["a"], "reject", n, ("etree",)))
+    # 7b. a list member placed after a non-list child that is declared behind the list, or before one declared ahead
+    idx = {x["tag"]: i for i, x in enumerate(attrs)}
+    for li, L in enumerate(attrs):
+        if L["k"] not in ("lagg", "lelem"):
+            continue
+        for T in attrs:
+            if T["k"] not in ("elem", "sub") or T["tag"] == L["tag"]:
+                continue
+            n = add_child(base, cls, L, schema, types, mins)
+            base2 = [n[0], n[1], n[2]]
+            n = add_child(base2, cls, T, schema, types, mins)
+            kidsn = n[2]
+            mem = [k for k in kidsn if k[0] == L["tag"]]
+            tk = [k for k in kidsn if k[0] == T["tag"]]
+            if not mem or not tk:
+                continue
+            rest = [k for k in kidsn if k is not mem[-1]]
+            ti = rest.index(tk[0])
+            after = idx[T["tag"]] > idx[L["tag"]]
+            # violate: member after a child declared behind the list / before a child declared ahead of it
+            rest.insert(ti + 1 if after else ti, mem[-1])
+            # only a violation if no other list member now directly precedes the moved member (list after list is free)
+            pos = rest.index(mem[-1])
+            prev = rest[pos - 1] if pos > 0 else None
+            if after and prev is not None and bytag.get(prev[0], {}).get("k") in ("lagg", "lelem"):
+                continue
+            out.append(("order-list-member %s %s %s" % (L["a"], "after" if after else "before", T["a"]), "", [n[0], n[1], rest], ("etree",)))
+            break
     # 11. slot kinds
     for a in attrs:
         if a["k"] in ("sub", "lagg"):
@@ -149,8 +177,8 @@ def run(ctx):
         vs = variants(cls, mins[cls], schema, types, mins, rnd)
         for lab, exp, node, routes in vs:
             doc = dc.from_nested(node)
-            for route in routes:
-                e = dc.ev_doc("v%d%s" % (n, route[0]), doc, schema, route=route, label="%s %s" % (cls, lab), expect=exp)
+            for route in routes + (("kwnative",) if "kw" in routes else ()):
+                e = dc.ev_doc("v%d%s" % (n, route[:3]), doc, schema, route=route, label="%s %s" % (cls, lab), expect=exp)
                 if e is None:
                     continue
                 e["unknownkw"] = False
